@@ -57,6 +57,7 @@ type Decoder struct {
 	refList    []reflect.Value
 	clsDefList []ClassDef
 	depth      int // nesting level of the value being read
+	skipping   int // > 0 while the value of a wire field that has no Go counterpart is being consumed
 }
 
 //NewDecoder new
@@ -80,6 +81,7 @@ func (d *Decoder) Reset(r ByteRuneReader) {
 	d.clsDefList = make([]ClassDef, 0, 11)
 	d.refList = make([]reflect.Value, 0, 11)
 	d.depth = 0
+	d.skipping = 0
 }
 
 //RegisterType register key/value type
